@@ -35,7 +35,9 @@ func (c Case) text() string {
 	return sb.String()
 }
 
-var idents = []string{"a", "b", "c1", "d_x", "Ee", "f", "_g", "x2y"}
+// identifier pool: Go-identifier shapes, including words that happen to be Go keywords (the syntax is not Go:
+// "if", "else", "type" are ordinary variable names, inside and outside exactly-one groups)
+var idents = []string{"a", "b", "c1", "d_x", "Ee", "f", "_g", "x2y", "if", "else", "type", "go"}
 
 func adjacentMixedOps(toks []string) bool {
 	// two different binary operators with no parenthesis between them at the same nesting depth
@@ -63,7 +65,8 @@ func adjacentMixedOps(toks []string) bool {
 func check(c Case, o *vf.Obs) error {
 	txt := c.text()
 	o.Class(c.Kind)
-	o.ClassIf(c.How != "", "corruption-"+c.How)
+	o.ClassIf(c.How != "" && c.Kind == "negative", "corruption-"+c.How)
+	o.ClassIf(c.How != "" && c.Kind == "positive", c.How)
 	o.ClassIf(strings.ContainsAny(txt, "\n\t"), "newline-or-tab")
 	var f bf.Formula
 	var err error
@@ -144,6 +147,44 @@ func genTree(t *rapid.T, budget *int, depth int) *oracle.F {
 		return &oracle.F{Op: op, Kids: []*oracle.F{genTree(t, budget, depth+1)}}
 	}
 	return &oracle.F{Op: op, Kids: []*oracle.F{genTree(t, budget, depth+1), genTree(t, budget, depth+1)}}
+}
+
+// genChain: flat chains of hundreds to thousands of operands joined by one operator (a conjunction of many
+// clauses with ';' is the documented use of that operator), over a handful of variables.
+func genChain(t *rapid.T) Case {
+	op := rapid.SampledFrom([]string{"semi", "semi", "and", "or", "implies", "eq"}).Draw(t, "op")
+	n := rapid.SampledFrom([]int{40, 200, 300, 600, 1500, 4000}).Draw(t, "n") + rapid.IntRange(0, 30).Draw(t, "plus")
+	if op == "eq" {
+		n = 8 + n%9 // bf.Eq(f, g) holds g twice and Eval visits both: a chain of '=' costs 2^n evaluations
+	}
+	vars := []string{"a", "b", "c1", "d_x"}
+	leaf := func() *oracle.F {
+		f := oracle.V(vars[gen.Uniform(t, 0, len(vars)-1, "v")])
+		if gen.Chance(t, 1, 3, "neg") {
+			f = &oracle.F{Op: "not", Kids: []*oracle.F{f}}
+		}
+		return f
+	}
+	// right-nested, as the text will be read
+	tree := leaf()
+	for i := 1; i < n; i++ {
+		tree = &oracle.F{Op: op, Kids: []*oracle.F{leaf(), tree}}
+	}
+	toks := texts.Tokens(tree, texts.RenderOpts{})
+	sp := spaces(t, len(toks)+1, false)
+	if rapid.Bool().Draw(t, "newlines") {
+		for i := range sp {
+			if i > 0 && toks[i-1] == opTok(op) {
+				sp[i] = "\n"
+			}
+		}
+	}
+	fixSpaces(toks, sp)
+	return Case{Tree: tree, Tokens: toks, Spaces: sp, Kind: "positive", How: "chain-" + op}
+}
+
+func opTok(op string) string {
+	return map[string]string{"semi": ";", "and": "&", "or": "|", "implies": "->", "eq": "="}[op]
 }
 
 func spaces(t *rapid.T, n int, wild bool) []string {
@@ -262,7 +303,9 @@ func init() {
 			Rule: "syntax trees (size <=25) over Go-identifier-shaped names, exactly-one groups {a, b} of 1..4 names, rendered with minimal or redundant parentheses at each node, right-nested operator chains (and, for the associative operators, unparenthesised left operands), ';' at top level and inside parentheses, optional trailing ';', random whitespace incl. tabs/newlines/CRLF between tokens; oracle = own evaluator of the tree under all assignments vs Formula.Eval of the parse result; non-trivial = two different binary operators adjacent without parentheses"}
 	subNegative = vf.Sub[Case]{Name: "negative", Quick: 10000, Thorough: 150000, Gen: genNegative, Check: check, Floor: 0.5,
 			Rule: "token-level corruptions of a valid rendering: operand deleted, operator deleted or doubled, parenthesis deleted or added, token appended, empty text, {}, {a,}; corruptions that the harness's own recogniser of the documented grammar still accepts are discarded (counted as excluded); asserted: error != nil, formula == nil, no panic; non-trivial = the corrupted text is ill-formed"}
-	vf.Register(subPositive, subNegative)
+	subChains := vf.Sub[Case]{Name: "long-chains", Quick: 60, Thorough: 600, Gen: genChain, Check: check, Floor: 0,
+		Rule: "flat chains of 40..4000 (possibly negated) variables joined by one operator (';', '&', '|', '->'; '=' chains are kept under 17 operands because Formula.Eval of nested equivalences is exponential), one operand per line or on one line; the parse result must be equivalent to the right-nested reading under all assignments of the 4 variables"}
+	vf.Register(subPositive, subNegative, subChains)
 }
 
 func TestMain(m *testing.M)   { vf.Main(m, "C17") }
